@@ -45,6 +45,7 @@ static QueryResponseSignature mk_sig(int id) {
 }
 static std::vector<index_t> mk_list(int id) {
     std::vector<index_t> l;
+    if (id == 3) return l;                            // the empty list is a value too (a message without questions / answers)
     if (id % 2 == 0) l = {static_cast<index_t>(id)};
     else l = {static_cast<index_t>(id), 0};
     if (id % 7 == 6) l.insert(l.end(), 50, static_cast<index_t>(id));
@@ -73,7 +74,31 @@ struct Slot {
     bool is_read = false;
 };
 
+// Every other call hands the value over in a scratch object the caller re-uses (as a collector does): it held a larger
+// value before, so strings and vectors keep their old capacity - an empty vector then still owns a buffer.
+static unsigned g_calls = 0;
 static index_t do_add(CdnsBlock& b, const std::string& tab, int id) {
+    if (g_calls++ % 2) {
+        static std::string str;
+        static std::vector<index_t> vec;
+        if (tab == "ip" || tab == "name") {
+            str.assign(200, 'q'); str.clear(); str += mk_string(id);
+            return tab == "ip" ? b.add_ip_address(str) : b.add_name_rdata(str);
+        }
+        if (tab == "qlist" || tab == "rrlist") {
+            std::vector<index_t> l = mk_list(id);
+            vec.assign(70, 9); vec.clear(); vec.insert(vec.end(), l.begin(), l.end());
+            return tab == "qlist" ? b.add_question_list(vec) : b.add_rr_list(vec);
+        }
+        if (tab == "mmd") {
+            static MalformedMessageData m;
+            m = mk_mmd(3); m.mm_payload = std::string(90, 'z'); m.server_port = 9;
+            MalformedMessageData w = mk_mmd(id);
+            m.server_address_index = w.server_address_index; m.server_port = w.server_port; m.mm_transport_flags = w.mm_transport_flags;
+            if (w.mm_payload) { if (!m.mm_payload) m.mm_payload = std::string(); m.mm_payload->assign(*w.mm_payload); } else m.mm_payload = boost::none;
+            return b.add_malformed_message_data(m);
+        }
+    }
     if (tab == "ip") return b.add_ip_address(mk_string(id));
     if (tab == "name") return b.add_name_rdata(mk_string(id));
     if (tab == "ct") return b.add_classtype(mk_ct(id));
@@ -217,9 +242,23 @@ static void run_history(const json& h, const std::string& tab, const std::string
 // ---------------------------------------------------------------------------------------------
 static std::string blk_ip(int id) { return std::string({static_cast<char>(10), 0, static_cast<char>(id / 256), static_cast<char>(id % 256)}); }
 static std::string blk_name(int id) { return std::string(1, static_cast<char>(2)) + "n" + std::to_string(id % 10) + std::string(1, '\0'); }
+// parameter sets (BlockValue.tla ParamIds): 0 default; 1: 1000 ticks/s, 2 items, response-rcode not stored;
+// 2: 10^6 ticks/s, 3 items, query-opcode not stored.  All of them are written as set #0 of their file.
+static BlockParameters mk_bp(int p) {
+    BlockParameters bp;
+    if (p == 1) {
+        bp.storage_parameters.ticks_per_second = 1000;
+        bp.storage_parameters.max_block_items = 2;
+        bp.storage_parameters.storage_hints.query_response_signature_hints &= ~static_cast<uint32_t>(QueryResponseSignatureHintsMask::response_rcode);
+    } else if (p == 2) {
+        bp.storage_parameters.max_block_items = 3;
+        bp.storage_parameters.storage_hints.query_response_signature_hints &= ~static_cast<uint32_t>(QueryResponseSignatureHintsMask::query_opcode);
+    }
+    return bp;
+}
 static GenericQueryResponse mk_gqr(int id) {
     GenericQueryResponse g;
-    g.ts = Timestamp(100 + id, 0);
+    g.ts = Timestamp(100 + id, (id * 37 + 5) % 1000);     // ticks valid at every rate in use
     g.transaction_id = id;
     g.client_port = 1000 + id;
     g.client_ip = blk_ip(id % 2);
@@ -231,12 +270,13 @@ static GenericQueryResponse mk_gqr(int id) {
     if (id % 2) g.response_rcode = 3;
     return g;
 }
+// all members but query-opcode / response-rcode (their presence is logged: it depends on the block's hints)
 static bool same_gqr(GenericQueryResponse& g, int id) {
     GenericQueryResponse w = mk_gqr(id);
     return g.client_port == w.client_port && g.client_ip == w.client_ip && g.server_ip == w.server_ip &&
            g.query_name == w.query_name && g.query_classtype && *g.query_classtype == *w.query_classtype &&
-           g.query_opcode == w.query_opcode && g.response_rcode == w.response_rcode &&
-           g.ts && g.ts->m_secs == w.ts->m_secs;
+           (!g.query_opcode || g.query_opcode == w.query_opcode) && (!g.response_rcode || g.response_rcode == w.response_rcode) &&
+           g.ts && g.ts->m_secs == w.ts->m_secs && g.ts->m_ticks == w.ts->m_ticks;
 }
 static GenericAddressEventCount mk_gaec(int id) {
     GenericAddressEventCount a;
@@ -255,7 +295,7 @@ static int id_of_gaec(GenericAddressEventCount& a, bool& ok) {
 }
 static GenericMalformedMessage mk_gmm(int id) {
     GenericMalformedMessage m;
-    m.ts = Timestamp(200 + id, 0);
+    m.ts = Timestamp(200 + id, (id * 53 + 1) % 1000);
     m.client_port = 2000 + id;
     m.client_ip = blk_ip(id % 2);
     m.mm_payload = mk_string(id % 4);
@@ -265,23 +305,26 @@ static GenericMalformedMessage mk_gmm(int id) {
 static bool same_gmm(GenericMalformedMessage& g, int id) {
     GenericMalformedMessage w = mk_gmm(id);
     return g.client_port == w.client_port && g.client_ip == w.client_ip && g.mm_payload == w.mm_payload &&
-           g.server_port == w.server_port && g.ts && g.ts->m_secs == w.ts->m_secs;
+           g.server_port == w.server_port && g.ts && g.ts->m_secs == w.ts->m_secs && g.ts->m_ticks == w.ts->m_ticks;
 }
 static std::size_t kind_count(CdnsBlock& b, const std::string& k) {
     return k == "qr" ? b.get_qr_count() : k == "aec" ? b.get_aec_count() : b.get_mm_count();
 }
 static std::string blk_path() { return g_tmpdir + "/blk_" + std::to_string(getpid()); }
-static void write_out(CdnsBlock& src, const std::string& path) {
-    FilePreamble fp;
+// the block written as the only block of a file whose preamble holds parameter set p as #0
+static void write_out(CdnsBlock& src, const std::string& path, int p) {
+    BlockParameters bp = mk_bp(p);
+    std::vector<BlockParameters> bps{bp};
+    FilePreamble fp(bps);
     CdnsExporter ex(fp, path, CborOutputCompression::NO_COMPRESSION);
     ex.write_block(src);
 }
 // one read_generic_<k>() call, logged
 static json read_one(CdnsBlockRead& b, const std::string& k) {
-    bool end = false, ok = true; int v = -1; uint64_t c = 0;
+    bool end = false, ok = true, rc = false, oc = false; int v = -1; uint64_t c = 0;
     if (k == "qr") {
         GenericQueryResponse g = b.read_generic_qr(end);
-        if (!end) { v = g.transaction_id ? *g.transaction_id : -1; ok = v >= 0 && same_gqr(g, v); }
+        if (!end) { v = g.transaction_id ? *g.transaction_id : -1; ok = v >= 0 && same_gqr(g, v); rc = !!g.response_rcode; oc = !!g.query_opcode; }
     } else if (k == "aec") {
         GenericAddressEventCount a = b.read_generic_aec(end);
         if (!end) { v = id_of_gaec(a, ok); c = a.ae_count; }
@@ -289,15 +332,16 @@ static json read_one(CdnsBlockRead& b, const std::string& k) {
         GenericMalformedMessage g = b.read_generic_mm(end);
         if (!end) { v = g.client_port ? *g.client_port - 2000 : -1; ok = v >= 0 && same_gmm(g, v); }
     }
-    return {{"end", end}, {"v", v}, {"c", c}, {"ok", ok}};
+    return {{"end", end}, {"v", v}, {"c", c}, {"ok", ok}, {"rc", rc}, {"oc", oc}};
 }
-// the block as the real exporter writes it and the real reader reads it
-static json serialised(CdnsBlock& src, int t) {
+static json read_one(CdnsBlock&, const std::string&) { return nullptr; }   // a plain CdnsBlock has no read API
+// the block as the real exporter writes it (under the parameters p the application gave it) and the real reader reads it
+static json serialised(CdnsBlock& src, int t, int p) {
     json q = json::array(), a = json::array(), m = json::array();
     bool good = true;
     if (src.get_item_count() > 0) {
         std::string path = blk_path();
-        write_out(src, path);
+        write_out(src, path, p);
         std::ifstream in(path, std::ios::binary);
         CdnsReader rd(in);
         bool eof = false;
@@ -307,30 +351,49 @@ static json serialised(CdnsBlock& src, int t) {
                 json r = read_one(blk, k);
                 if (r["end"]) break;
                 if (!r["ok"]) good = false;
-                if (std::string(k) == "qr") q.push_back(r["v"]);
+                if (std::string(k) == "qr") q.push_back(json::array({r["v"], r["rc"], r["oc"]}));
                 else if (std::string(k) == "mm") m.push_back(r["v"]);
                 else a.push_back(json::array({r["v"], r["c"]}));
             }
         }
         unlink(path.c_str());
     }
-    return {{"e", "S"}, {"t", t}, {"q", q}, {"a", a}, {"m", m}, {"ok", good}};
+    return {{"e", "S"}, {"t", t}, {"p", p}, {"q", q}, {"a", a}, {"m", m}, {"ok", good}};
 }
 
+template <class B> static B* new_block(int p) { B* b = new B(); BlockParameters bp = mk_bp(p); b->set_block_parameters(bp, 0); return b; }
+template <> CdnsBlock* new_block<CdnsBlock>(int p) { BlockParameters bp = mk_bp(p); return new CdnsBlock(bp, 0); }
+
+// B = CdnsBlockRead (copies are read through the generic read API) or CdnsBlock (a block the application fills and writes)
+template <class B>
 static void run_blk_history(const json& h)
 {
     vh::trace().emit({{"e", "R"}});
-    std::map<int, std::shared_ptr<CdnsBlockRead>> slots;
-    slots[1] = std::make_shared<CdnsBlockRead>();
+    std::map<int, std::shared_ptr<B>> slots;
+    std::map<int, int> ps;           // the parameters the application gave the block in each slot (a copy has its source's)
+    slots[1] = std::make_shared<B>();
+    ps[1] = 0;
     for (auto& o : h["ops"]) {
         std::string op = o["op"];
         if (op == "item") {
             int t = o["t"], v = o["v"]; std::string k = o["k"];
             CdnsBlock& b = *slots[t];
-            if (k == "qr") b.add_question_response_record(mk_gqr(v));
-            else if (k == "aec") b.add_address_event_count(mk_gaec(v));
-            else b.add_malformed_message(mk_gmm(v));
-            vh::trace().emit({{"e", "I"}, {"t", t}, {"k", k}, {"v", v}, {"n", kind_count(b, k)}});
+            bool full;
+            if (k == "qr") full = b.add_question_response_record(mk_gqr(v));
+            else if (k == "aec") full = b.add_address_event_count(mk_gaec(v));
+            else full = b.add_malformed_message(mk_gmm(v));
+            vh::trace().emit({{"e", "I"}, {"t", t}, {"k", k}, {"v", v}, {"n", kind_count(b, k)}, {"full", full}});
+        } else if (op == "new") {
+            int t = o["t"], p = o["p"];
+            slots[t] = std::shared_ptr<B>(new_block<B>(p));
+            ps[t] = p;
+            vh::trace().emit({{"e", "NB"}, {"t", t}, {"p", p}});
+        } else if (op == "setp") {
+            int t = o["t"], p = o["p"];
+            BlockParameters bp = mk_bp(p);
+            bool ret = slots[t]->set_block_parameters(bp, 0);
+            if (ret) ps[t] = p;
+            vh::trace().emit({{"e", "SP"}, {"t", t}, {"p", p}, {"ret", ret}});
         } else if (op == "clear") {
             int t = o["t"];
             slots[t]->clear();
@@ -341,35 +404,37 @@ static void run_blk_history(const json& h)
             vh::trace().emit({{"e", "DS"}, {"t", t}});
         } else if (op == "copy") {
             int s = o["src"], d = o["dst"]; std::string how = o["how"];
-            CdnsBlockRead& src = *slots[s];
-            if (how == "cctor") slots[d] = std::shared_ptr<CdnsBlockRead>(new CdnsBlockRead(src));
-            else if (how == "mctor") slots[d] = std::shared_ptr<CdnsBlockRead>(new CdnsBlockRead(std::move(src)));
+            B& src = *slots[s];
+            if (how == "cctor") slots[d] = std::shared_ptr<B>(new B(src));
+            else if (how == "mctor") slots[d] = std::shared_ptr<B>(new B(std::move(src)));
             else if (how == "cassign") *slots[d] = src;
             else if (how == "massign") *slots[d] = std::move(src);
             else {
                 std::string path = blk_path();
-                write_out(src, path);
+                write_out(src, path, ps[s]);
                 std::ifstream in(path, std::ios::binary);
                 CdnsReader rd(in);
                 bool eof = false;
-                if (how == "rctor") slots[d] = std::shared_ptr<CdnsBlockRead>(new CdnsBlockRead(rd.read_block(eof)));
+                if (how == "rctor") slots[d] = std::shared_ptr<B>(new B(rd.read_block(eof)));
                 else *slots[d] = rd.read_block(eof);
                 unlink(path.c_str());
             }
+            ps[d] = ps[s];
             CdnsBlock& db = *slots[d];
             vh::trace().emit({{"e", "CP"}, {"src", s}, {"dst", d}, {"how", how}, {"foreign", foreign(db)},
                               {"counts", json::array({db.get_qr_count(), db.get_aec_count(), db.get_mm_count()})}});
         } else if (op == "read") {
             int t = o["t"]; std::string k = o["k"];
             json r = read_one(*slots[t], k);
+            if (r.is_null()) continue;
             r["e"] = "RD"; r["t"] = t; r["k"] = k;
             vh::trace().emit(r);
         } else if (op == "ser") {
             int t = o["t"];
-            vh::trace().emit(serialised(*slots[t], t));
+            vh::trace().emit(serialised(*slots[t], t, ps[t]));
         }
     }
-    for (auto& kv : slots) if (kv.second) vh::trace().emit(serialised(*kv.second, kv.first));
+    for (auto& kv : slots) if (kv.second) vh::trace().emit(serialised(*kv.second, kv.first, ps[kv.first]));
 }
 
 int main(int argc, char** argv)
@@ -411,7 +476,9 @@ int main(int argc, char** argv)
         while (std::getline(in, line)) {
             if (line.empty()) continue;
             if ((job++ % nshards) != shard) continue;
-            run_blk_history(json::parse(line));
+            json h = json::parse(line);
+            if (h.value("cls", std::string("blockread")) == "block") run_blk_history<CdnsBlock>(h);
+            else run_blk_history<CdnsBlockRead>(h);
         }
     } else {
         fprintf(stderr, "usage: tbl_driver run <histories> <shard> <nshards> <out>\n");
